@@ -167,12 +167,19 @@ package dnsserver
 //@           (old(len(req.Question)) > 0 ==> req.Question[0] == old(req.Question[0]))
 //@   ensures forall s *ServerBase :: s.metrics == old(s.metrics) && s.handler == old(s.handler) && s.disposer == old(s.disposer)
 //@   ensures forall w ResponseWriter :: writes[w] >= old(writes[w])
+//@   ensures writes-only-to-its-writer: forall w ResponseWriter :: w != rw &&
+//@             !(isptr(rw, RecorderResponseWriter) && w == old(asptr(rw, RecorderResponseWriter).rw)) ==> writes[w] == old(writes[w])
 //@   ensures isptr(rw, RecorderResponseWriter) ==> asptr(rw, RecorderResponseWriter).rw == old(asptr(rw, RecorderResponseWriter).rw) &&
 //@      ((asptr(rw, RecorderResponseWriter).Resp == old(asptr(rw, RecorderResponseWriter).Resp) &&
 //@        writes[old(asptr(rw, RecorderResponseWriter).rw)] == old(writes[asptr(rw, RecorderResponseWriter).rw])) ||
 //@       (asptr(rw, RecorderResponseWriter).Resp == wroteResp[old(asptr(rw, RecorderResponseWriter).rw)] &&
 //@        asptr(rw, RecorderResponseWriter).Resp != nil &&
 //@        writes[old(asptr(rw, RecorderResponseWriter).rw)] > old(writes[asptr(rw, RecorderResponseWriter).rw])))
+
+//@ interface ResponseWriter method LocalAddr
+//@   modifies nothing
+//@ interface ResponseWriter method RemoteAddr
+//@   modifies nothing
 
 //@ interface MetricsListener method OnInvalidMsg
 //@   modifies nothing
